@@ -10,7 +10,7 @@ FuncRef = namedtuple("FuncRef", "name")
 
 # platform constants of the standard library (POSIX values; gwf drives POSIX schedulers)
 EXTERNAL_CONSTANTS = {"os.curdir": ".", "os.pardir": "..", "os.sep": "/", "os.path.sep": "/", "os.linesep": "\n", "os.devnull": "/dev/null", "os.extsep": ".", "os.pathsep": ":",
-                      "os.path.curdir": ".", "os.path.pardir": ".."}
+                      "os.path.curdir": ".", "os.path.pardir": "..", "datetime.timezone.utc": __import__("datetime").timezone.utc, "datetime.UTC": __import__("datetime").timezone.utc}
 
 
 class DefaultDict(dict):
